@@ -400,6 +400,25 @@ func runC20(t *rapid.T, w *rep.Worker, tt *testing.T) {
 			w.Violate("annotated-hex-accepts-corruption", fmt.Sprintf("text with %q outside comments was accepted and parsed to %x", bad, got))
 		}
 	}
+	// very long lines are placements of line breaks too
+	if rapid.IntRange(0, 39).Draw(t, "longline") == 0 {
+		big := make([]byte, rapid.IntRange(30000, 40000).Draw(t, "biglen"))
+		for i := range big {
+			big[i] = byte(i*7 + 3)
+		}
+		sep := []string{"", " ", "\t"}[rapid.IntRange(0, 2).Draw(t, "bigsep")]
+		var sb strings.Builder
+		for _, c := range big {
+			fmt.Fprintf(&sb, "%02x%s", c, sep)
+		}
+		sb.WriteString("\n0a ; last line\n")
+		w.Fault("annotated_hex_long_line")
+		got, err := prototest.ParseAnnotatedHex(sb.String())
+		if err != nil || !bytes.Equal(got, append(append([]byte{}, big...), 0x0a)) {
+			w.Step("ParseAnnotatedHex(one line of %d characters, then a short line)", sb.Len())
+			w.Violate("annotated-hex-roundtrip", fmt.Sprintf("a %d-byte message rendered on one long line parsed to %d bytes, err=%v", len(big)+1, len(got), err))
+		}
+	}
 	data := parsed
 	if data == nil {
 		data = valid
